@@ -803,6 +803,9 @@ off_t iw_exfile_szpolicy_mul(off_t nsize, off_t csize, struct IWFS_EXT *f, void 
   uint64_t ret = (uint64_t) nsize;
   ret /= mul->dn;
   ret *= mul->n;
+  if (ret < (uint64_t) nsize) { // integer division above may round below the requested size
+    ret = (uint64_t) nsize;
+  }
   ret = IW_ROUNDUP(ret, f->impl->psize);
   if (ret > OFF_T_MAX) {
     ret = OFF_T_MAX;
